@@ -51,6 +51,11 @@ func cmdRun(args []string) {
 	if w := os.Getenv("VERIF_WORKERS"); w != "" {
 		fmt.Sscan(w, &e.workers)
 	}
+	for _, k := range strings.Split(os.Getenv("VERIF_OPEN"), ",") {
+		if k != "" {
+			e.openKF[k] = true
+		}
+	}
 	e.bounds = map[string]int{}
 	for _, kv := range strings.Split(os.Getenv("VERIF_BOUNDS"), ",") {
 		var k string
